@@ -635,6 +635,7 @@ func (x *fnExec) runFunc(fr *frame, st *State) []retEdge {
 						rv.Fs = append(rv.Fs, x.val(fr, r))
 					}
 				}
+				x.atReturn(fr, cur, t, rv)
 				rets = append(rets, retEdge{cur.pc, cur, rv, len(rets), b})
 				ended = true
 			case *ssa.Panic:
